@@ -4,6 +4,7 @@
 From Coq Require Import ZArith Reals List Bool String.
 From Coquelicot Require Import Coquelicot.
 From VQ Require Import Num Model.Vec Model.Gumbel Proofs.GumbelProofs Proofs.CoreNearest Glue.CoreGlue Glue.Pin_p_gumbel.
+From VQ Require Import Glue.Pin_fp_C19.
 Import ListNotations.
 Open Scope R_scope.
 
@@ -92,3 +93,8 @@ Theorem C19_tie_sampling_dataflow :
   p_gumbel.p_gumbel = pinned_p_gumbel.
 Proof. exact (@pin_p_gumbel). Qed.
 Print Assumptions C19_tie_sampling_dataflow.
+
+Theorem C19_tie_source_footprint :
+  fp_C19.fp_C19 = pinned_fp_C19.
+Proof. exact (@Pin_fp_C19.pin_fp_C19). Qed.
+Print Assumptions C19_tie_source_footprint.
